@@ -922,8 +922,8 @@ func main() {
 			"set_command, add_label, add_dep, add_entry_point, add_licence, optional out) - typically pre-build hash, changes, post-build hash, plus " +
 			"changes before the first hash, repeated and runtime calls; every returned value is located among sha1(interpreted stream of a stored state seen so far) " +
 			"and the Coq state machine (Model/C08_Cache.v, wrapper regenerated from RuleHash) must return the same stream; oracle: along histories the build can " +
-			"produce, a post-build / runtime call (and any call on a target the build cannot modify) returns the hash of the CURRENT attributes (recomputed " +
-			"with the memo cleared, and on a fresh object built from the current recipe); two copies of one target whose builds change the same attribute " +
+			"produce, a post-build / runtime call (and any call on a target the build cannot modify) returns the hash of the CURRENT attributes (the unexported " +
+			"ruleHash itself through the hook src/build/verif_c08.go, and RuleHash on a fresh object built from the current recipe); two copies of one target whose builds change the same attribute " +
 			"differently get different post-build hashes unless the pair falls in a listed unframed class")
 		prog := rh.LoadProg()
 
